@@ -74,3 +74,116 @@ def run(ck, prog):
     _run_pre_progress(ck, prog)
     from sa import progress
     progress.run_rule(ck, prog, set(DIMENSION_FILES))
+
+
+# ------------------------------------------------------------------ balancing factors accumulate; the exceptional shift covers the active block
+_run_pre_evdshape = run
+
+
+def balance_accumulates(ck, prog):
+    """balance() may rescale the same row in several sweeps; balbak() multiplies the eigenvector rows by scale[i], so scale[i]
+    has to be the PRODUCT of all factors applied to row i: every update of a scale entry inside the sweep is a multiplicative
+    update (`*= f`), never a plain overwrite with the latest factor."""
+    from sa.prov import Resolver, render
+    rule, inst = "E2-provenance", "balance: scale[i] accumulates the factors applied to row i"
+    b = prog.bodies.get("linalg::evd::balance")
+    if b is None:
+        ck.violation(rule, inst, "linalg::evd::balance", "", expected="anchor exists", found="anchor vanished")
+        return
+    res = Resolver(b)
+    # the scale vector: the Vec<T> returned
+    ret = None
+    for d in b.defs.get(0, []):
+        if d.kind == "assign" and d.data["r"]["k"] == "use" and d.data["r"]["o"]["k"] in ("move", "copy"):
+            ret = d.data["r"]["o"]["p"]["l"]
+    muls, stores = [], []
+    for bb, t in b.calls():
+        f = t.get("f")
+        if f and f["path"].endswith("MulAssign::mul_assign") and t["args"][0]["k"] in ("move", "copy"):
+            tgt = res.operand(t["args"][0])
+            if _is_scale_elem(tgt, ret):
+                muls.append(b.where(bb))
+    for l, ds in b.partial_defs.items():
+        for d in ds:
+            if d.kind == "assign" and d.data["p"]["pr"] == ["*"]:
+                tgt = res.local(l)
+                if _is_scale_elem(tgt, ret):
+                    v = res.rvalue(d.data["r"], 0, ())
+                    if not (v[0] == "call" and v[1].endswith("Mul::mul")):
+                        stores.append((b.where(d.bb, d.idx), render(v)[:50]))
+    for d in b.defs.get(ret, []) if ret is not None else []:
+        if d.kind == "store":
+            v = res.rvalue(d.data["r"], 0, ())
+            if not (v[0] == "call" and v[1].endswith("Mul::mul")) and v[0] != "call":
+                stores.append((b.where(d.bb, d.idx), render(v)[:50]))
+    site = f"{b.loc[0]}:{b.loc[1]}"
+    if stores:
+        ck.violation(rule, inst, b.path, stores[0][0], expected="scale[i] *= f (the factors of all sweeps multiply)",
+                     found=f"a scale entry is overwritten with `{stores[0][1]}`: balbak undoes only the last rescaling of that row")
+    elif muls:
+        ck.ok(rule, inst, b.path, muls[0], f"{len(muls)} multiplicative update(s) of scale entries, no overwrite")
+    else:
+        ck.note(f"{inst}: no update of the returned scale vector recognised: no instance")
+
+
+def _is_scale_elem(t, ret_local):
+    """a reference to an element of the returned vector (iterator item of iter_mut over it, or index_mut into it)"""
+    from sa.prov import subterms
+    for s in subterms(t):
+        if s[0] in ("phi", "local") and s[1] == ret_local:
+            return True
+    return False
+
+
+def hqr2_shift_block(ck, prog):
+    """The exceptional shift (iterations 10 and 20) subtracts x from the diagonal of the ACTIVE block 0..=nn and adds it to
+    the accumulated shift t that is later added back to every eigenvalue found in that block: the loop over the diagonal runs
+    to nn + 1 exactly - not to nn (last entry unshifted) and not to n (already deflated entries shifted)."""
+    from sa.prov import Resolver, render, alts
+    rule, inst = "E2-provenance", "hqr2: the exceptional shift is applied to the diagonal entries 0..=nn"
+    b = prog.bodies.get("linalg::evd::hqr2")
+    if b is None:
+        ck.violation(rule, inst, "linalg::evd::hqr2", "", expected="anchor exists", found="anchor vanished")
+        return
+    res = Resolver(b)
+    n = 0
+    for bb, t in b.calls():
+        f = t.get("f")
+        if not (f and f["path"].endswith("::sub_element_mut") and len(t["args"]) == 4):
+            continue
+        r, c = res.operand(t["args"][1]), res.operand(t["args"][2])
+        if r != c or not (r[0] == "field" and r[2] == "0" and r[1][0] == "variant"):
+            continue
+        nx = r[1][1]
+        if not (nx[0] == "call" and nx[1].endswith("Iterator::next") and nx[2]):
+            continue
+        for a in alts(nx[2][0]):
+            if a[0] == "agg" and a[1].endswith("Range::Range"):
+                n += 1
+                lo, hi = a[2]
+                h = hi[1] if hi[0] == "field" and hi[2] == "0" else hi
+                ok = lo == ("int", 0) and h[0] == "bin" and h[1] in ("Add", "AddWithOverflow") and h[3] == ("int", 1) and h[2][0] in ("phi", "local")
+                incl = a[1].endswith("RangeInclusive")
+                if ok:
+                    ck.ok(rule, inst, b.path, b.where(bb), f"diagonal loop over 0..{render(hi)[:40]}")
+                else:
+                    ck.violation(rule, inst, b.path, b.where(bb), ordinal=n, expected="for i in 0..nn + 1 (the active block, its last entry included)",
+                                 found=f"the diagonal loop runs over {render(lo)}..{render(hi)[:50]}")
+            if a[0] == "call" and a[1].endswith("RangeInclusive::<Idx>::new") and len(a[2]) == 2:
+                n += 1
+                lo, hi = a[2]
+                if lo == ("int", 0) and hi[0] in ("phi", "local"):
+                    ck.ok(rule, inst, b.path, b.where(bb), f"diagonal loop over 0..={render(hi)[:40]}")
+                else:
+                    ck.violation(rule, inst, b.path, b.where(bb), ordinal=n, expected="for i in 0..=nn", found=f"{render(lo)}..={render(hi)[:50]}")
+    if n == 0:
+        ck.note(f"{inst}: no loop subtracting from the diagonal (A[i][i] -= x) in hqr2: no instance")
+
+
+def run(ck, prog):
+    _run_pre_evdshape(ck, prog)
+    balance_accumulates(ck, prog)
+    hqr2_shift_block(ck, prog)
+
+
+EXPLANATION += (' balance(): every update of a scale entry is multiplicative (scale[i] accumulates the factors of all sweeps); hqr2: the exceptional shift is subtracted from the diagonal entries 0..=nn of the active block (E2-provenance; three independent seeds each).')
